@@ -1442,6 +1442,7 @@ func main() {
 		}
 		run.Inc("workers_ok")
 	})
+	walletMessages(run, tmp)
 	run.Assume("DER inputs whose integer values are ambiguous between strict and lax parsers (negative integers, long-form lengths, trailing bytes beyond one hash-type byte) are executed for crash-freedom only, not judged")
 	run.Assume("random-nonce ECDSA signing draws from crypto/rand: those cases are judged by verification/low-S/DER/recovery, not by equality")
 	run.Assume("BIP340 accept-side defects (missing s<n, lift checks) cannot be witnessed without breaking the challenge hash; the inputs are offered, disagreement is computationally out of reach")
